@@ -25,5 +25,7 @@ class C02(CacheProp):
                     exited.setdefault(int(t[5:]), st["n"])
         return fails
 
+    stress_kinds = ("stale",)
+
 
 PROP = C02()
